@@ -327,6 +327,9 @@ def run(prop, tier="quick", seed=1, replay=None, only_unit=None, scale=1.0):
         total = u.quick if tier == "quick" else u.thorough
         total = max(1, int(total * scale))
         nshards = max(1, min(nshards, total))
+        if u.enumerate is None:
+            # Hypothesis starts every run with the simplest example: shards of one or two cases would all test the same thing
+            nshards = max(1, min(nshards, total // 6))
         per = max(1, total // nshards)
         for sh in range(nshards):
             tasks.append((prop, u.name, tier, seed, sh, nshards, per))
